@@ -144,8 +144,21 @@ import resource  # noqa: E402
 import select  # noqa: E402
 import signal  # noqa: E402
 
+# counter shared by the main process and all shard children (created before any
+# fork): number of CPU-slow / hung calls of the code under test seen so far
+_shared = mmap.mmap(-1, 16)
+
+
+def slow_count():
+    return int.from_bytes(_shared[0:8], "little")
+
+
+def slow_incr():
+    _shared[0:8] = (slow_count() + 1).to_bytes(8, "little")
+
+
 SLOT_SIZE = 1 << 16
-CPU_KILL_AFTER = 12  # seconds of CPU time for one guarded call
+CPU_KILL_AFTER = 6  # seconds of CPU time for one guarded call (kernel limit, whole seconds: 5-6 s)
 _slot = None  # set in shard children
 _hard = resource.getrlimit(resource.RLIMIT_CPU)[1]
 
@@ -257,6 +270,8 @@ def run_shards(func, shards, procs=None, on_killed=None):
             else:
                 n = int.from_bytes(slots[slotno][0:4], "little")
                 cur = bytes(slots[slotno][4 : 4 + n])
+                for _ in range(8):
+                    slow_incr()  # a killed worker counts like several slow calls
                 sig = os.WTERMSIG(status) if os.WIFSIGNALED(status) else -os.WEXITSTATUS(status)
                 outcomes[idx] = ("killed", ShardKilled(shards[idx], sig, cur))
             free.append(slotno)
